@@ -4,6 +4,7 @@
 
    usage: extract_ie_fields.py <repo> <out.json>          extract (was run once, see below)
           extract_ie_fields.py --tla <in.json> <out.tla>   render the frozen JSON as spec/IeFieldTable.tla
+          extract_ie_fields.py --registry <in.json> <out.go>  constructors of the listed types (plumbing for the driver)
 
    It was run ONCE at the pinned commit of /repo; the JSON is frozen in /verif/tables and is the
    oracle of C09 (together with spec/IeLayout.tla).  It is never run at check time: a later change
@@ -149,6 +150,7 @@ def tla(inp, out):
            "   contents on which every accessor is defined).  Rows are 0-based octet indices, sbit 8 = most significant bit;\n"
            "   n = -1 is INF (rest of the contents); r0 = -1 marks the Iei / Len scalars kept outside the contents;\n"
            "   argmax = largest value of the setter's argument type (0 for octet-string arguments). *)\n"
+           "EXTENDS Integers\n"
            "IeTypes == <<\n%s\n>>\n"
            "=============================================================================\n") % (
                d["source_commit"][:12], len(d["types"]), sum(len(t["fields"]) for t in d["types"]), ",\n".join(L))
@@ -156,8 +158,21 @@ def tla(inp, out):
     print("wrote", out)
 
 
+def registry(inp, out):
+    d = json.load(open(inp))
+    L = ['// Code generated from tables/ie_fields.json (type names only) by tools/extract_ie_fields.py --registry. DO NOT EDIT.',
+         '// Plumbing: a type missing from the tree under test makes the driver fail to build (exit 2), never a verdict.',
+         'package main', '', 'import "github.com/free5gc/nas/nasType"', '', 'var Types = map[string]func() any{']
+    for t in d["types"]:
+        L.append('\t"%s": func() any { return &nasType.%s{} },' % (t["type"], t["type"]))
+    L.append('}')
+    open(out, "w").write("\n".join(L) + "\n")
+
+
 if __name__ == "__main__":
-    if sys.argv[1] == "--tla":
+    if sys.argv[1] == "--registry":
+        registry(sys.argv[2], sys.argv[3])
+    elif sys.argv[1] == "--tla":
         tla(sys.argv[2], sys.argv[3])
     else:
         main(sys.argv[1], sys.argv[2])
